@@ -9,9 +9,9 @@ ASSUMPTIONS = ['"defines link references" is over-approximated syntactically by 
                'parsed with the HtmlRenderer token set (default tokens + HtmlBlock/HtmlSpan)']
 CLOSED = {'Paragraph', 'Heading', 'SetextHeading', 'ThematicBreak', 'Quote', 'Table'}
 BOUNDS = {'quick': (2, 2), 'thorough': (3, 2)}
-L = spaces.LINES + ['<!-- x -->', '> <!-- c', '> ```', '> <?p', '<x-y>']
+L = spaces.LINES + ['<!-- x -->', '> <!-- c', '> ```', '> <?p', '<x-y>', '# h #', '#']
 # B is additionally enumerated to 3 lines over the lines that read or write parser scratch state
-LB3 = ['<div>', '', 'foo', '```', '# h', '> q', '- a', '<!-- x -->', '===', '<x-y>', '-']
+LB3 = ['<div>', '', 'foo', '```', '# h', '> q', '- a', '<!-- x -->', '===', '<x-y>', '-', '#']
 # family F2: A = X + blank line + closing paragraph (so that any X qualifies as "ending in a closed block"); X holds
 # look-aheads that are made but not consumed (indented table rows after a paragraph, ...)
 LX = ['foo', '    | a | b |', '    |---|---|', '| a | b |', '|---|---|', '- a', '  b', '> q', '```', '<div>', '    c', '', '-']
@@ -36,13 +36,40 @@ def jobs(tier):
     return js
 
 
+def full_dump(tok):
+    """every instance attribute of a token, recursively (the AST view only shows the documented repr attributes; scratch
+    values copied from class attributes, such as Heading.closing_sequence or CodeFence.delimiter, live here)"""
+    from mistletoe.token import Token
+    d = {'type': type(tok).__name__}
+    for k, v in sorted(vars(tok).items()):
+        if k == '_parent':
+            continue
+        d['children' if k == '_children' else k] = _dump_val(v, Token)
+    return d
+
+
+def _dump_val(v, Token):
+    if isinstance(v, Token):
+        return full_dump(v)
+    if isinstance(v, (list, tuple)):
+        return [_dump_val(x, Token) for x in v]
+    if isinstance(v, dict):
+        return {str(k): _dump_val(x, Token) for k, x in v.items()}
+    if v is None or isinstance(v, (str, int, float, bool)):
+        return v
+    return repr(v)
+
+
 def ast_of(text):
+    """per top-level block: the AstRenderer view and the full attribute dump"""
     from mistletoe import Document
     from mistletoe.html_renderer import HtmlRenderer
     from mistletoe.ast_renderer import get_ast
     core.fresh()
     with HtmlRenderer():
-        return get_ast(Document(text))
+        doc = Document(text)
+        return dict(type='Document', footnotes=get_ast(doc)['footnotes'],
+                    children=[dict(type=type(c).__name__, ast=get_ast(c), full=full_dump(c)) for c in doc.children])
 
 
 def shift(a, k):
